@@ -56,8 +56,10 @@ pub fn tier_for(prop: &str, tier: &str) -> Tier {
         ("C03", false) | ("C05", false) => (1_000_000, 480),
         ("C02", true) => (8_000, 40),
         ("C02", false) => (400_000, 480),
-        ("C04", true) | ("C14", true) => (12_000, 40),
-        ("C04", false) | ("C14", false) => (800_000, 400),
+        ("C04", true) => (12_000, 40),
+        ("C04", false) => (800_000, 480),
+        ("C14", true) => (150_000, 40),
+        ("C14", false) => (20_000_000, 400),
         ("C07", true) | ("C08", true) | ("C11", true) => (8_000, 40),
         ("C07", false) | ("C08", false) | ("C11", false) => (400_000, 480),
         ("C13", true) => (12_000, 45),
@@ -68,9 +70,9 @@ pub fn tier_for(prop: &str, tier: &str) -> Tier {
         ("C16", false) => (4_000_000, 600),
         ("C17", true) => (30_000, 40),
         ("C17", false) => (4_000_000, 600),
-        ("C19", true) => (10_000, 30),
-        ("C19", false) => (500_000, 360),
-        ("C20", true) => (1_500, 45),
+        ("C19", true) => (150_000, 30),
+        ("C19", false) => (20_000_000, 360),
+        ("C20", true) => (5_000, 45),
         ("C20", false) => (150_000, 600),
         (_, true) => (5_000, 30),
         (_, false) => (200_000, 300),
@@ -102,8 +104,16 @@ pub struct Agg {
 
 impl Agg {
     pub fn merge(&mut self, index: u64, cfg: &Value, out: RunOut, shape: String) {
-        self.evaluations += 1;
+        self.evaluations += out.evals.max(1);
         self.steps += out.steps;
+        let cfg_owned;
+        let cfg = match &out.cfg_override {
+            Some(c) => {
+                cfg_owned = c.clone();
+                &cfg_owned
+            }
+            None => cfg,
+        };
         for (k, v) in out.counters {
             *self.counters.entry(k).or_insert(0) += v;
         }
